@@ -141,6 +141,15 @@ def parse_model_rat(t):
     return Fraction(int(a), int(b))
 
 
+def to_float(fr):
+    """exact rational -> double; beyond the range of a double = inf (the model is exact, Python overflows: such values are
+    outside the model and reported as SPECIAL on both sides)"""
+    try:
+        return float(fr)
+    except OverflowError:
+        return math.inf if fr > 0 else -math.inf
+
+
 def parse_model_comp(t):
     """'k=i:3/1;k2=f:5/2' -> [(k, 'i'|'f', float)]"""
     res = []
@@ -149,7 +158,7 @@ def parse_model_comp(t):
     for kv in t.split(';'):
         k, v = kv.split('=')
         ty, r = v.split(':')
-        res.append((dec(k), ty, float(parse_model_rat(r))))
+        res.append((dec(k), ty, to_float(parse_model_rat(r))))
     return res
 
 
@@ -162,11 +171,15 @@ def cmp_mass(im, m):
     if im.startswith('OK '):
         if not m.startswith('OK '):
             return False
-        return close(float(im[3:]), float(parse_model_rat(m[3:])))
+        return close(float(im[3:]), to_float(parse_model_rat(m[3:])))
+    if im in ('SPECIAL', 'ERR:SPECIAL') and m.startswith('OK '):
+        return math.isinf(to_float(parse_model_rat(m[3:])))
     return im == m
 
 
 def cmp_comp(im, m, ordered=False):
+    if im == 'ERR:SPECIAL' and m.startswith('OK'):
+        return any(math.isinf(v) for _, _, v in parse_model_comp(m[3:]))
     if isinstance(im, list):
         if not m.startswith('OK'):
             return False
@@ -724,6 +737,11 @@ def run(chk):
 
     chk.oracle('generic_forms', gcases, o_generic, nontrivial_fn=lambda c: True, key_fn=repr)
     lap('oracle generic')
+    if tier == 'thorough':
+        chk.leanchecker(PROPS + ['PeptVerif.Lemmas.ModDbLemmas', 'PeptVerif.Lemmas.ModDbSpelling', 'PeptVerif.Lemmas.KSortC10',
+                                 'PeptVerif.Model.ModDb', 'PeptVerif.Model.Formula', 'PeptVerif.Model.ModDbFacts'] +
+                        (['PeptVerif.Lemmas.ModDbGeneric'] if 'PeptVerif.Props.C10Generic' in PROPS else []))
+        lap('leanchecker')
     return chk.finish(classify)
 
 
